@@ -145,6 +145,8 @@ def check_real(case, res):
         labels.append("real_inflight_at_signal")
     if len(running) >= 2:
         labels.append("real_two_inflight_at_signal")
+    if info.get("second_signal_sent"):
+        labels.append("real_second_signal")
     # (a) nobody outlives cond
     for pid in res["kernel"]["running_at_end"]:
         p = obs.procs.get(pid)
@@ -160,7 +162,7 @@ def check_real(case, res):
                   % (labels[1], res["uncaught_tb"].strip().splitlines()[-1])))
     elif res["status"] == 0:
         if rep["done"]:
-            labels.append("real_signal_after_completion")   # (or swallowed inside __del__, the open finding D8(iv))
+            labels.append("real_signal_after_completion")   # (a real run cannot tell where the signal landed)
         else:
             v.append(("exit_zero_real", "a real %s was sent while tasks were outstanding, cond run exited 0 without having completed" % labels[1]))
     elif ABORT_MSG not in stderr:
